@@ -643,6 +643,80 @@ Definition py_int (v : pyval) : res pyval :=
   | _ => Raise TypeError
   end.
 
+(* float(s): CPython's grammar for ASCII decimal literals (surrounding
+   whitespace, sign, digits with single underscores, fraction, exponent).
+   The value is the exact rational; "inf"/"nan" spellings, non-ASCII input
+   and exponents beyond +-300 are Unmodelled. *)
+Fixpoint split_digits (s : str) (acc : Z) (n : Z) (prev_digit : bool)
+  : option (Z * Z * str) :=          (* value, digit count, rest *)
+  match s with
+  | c :: s' =>
+      if (48 <=? c) && (c <=? 57) then split_digits s' (acc * 10 + (c - 48)) (n + 1) true
+      else if c =? 95 then
+        (if prev_digit then
+           match s' with
+           | d :: _ => if (48 <=? d) && (d <=? 57) then split_digits s' acc n false else None
+           | [] => None
+           end
+         else None)
+      else Some (acc, n, s)
+  | [] => Some (acc, n, [])
+  end.
+Definition parse_float (s : str) : res Q :=
+  if non_ascii s then Raise Unmodelled else
+  let t := strip s in
+  let '(neg, t) := match t with
+                   | 45 :: t' => (true, t') | 43 :: t' => (false, t') | _ => (false, t) end in
+  match t with
+  | c :: _ =>
+    if (c =? 105) || (c =? 73) || (c =? 110) || (c =? 78) then Raise Unmodelled (* inf / nan *)
+    else
+    match split_digits t 0 0 false with
+    | None => Raise ValueError
+    | Some (ip, ni, r1) =>
+        let frac := match r1 with
+                    | 46 :: r2 =>
+                        match split_digits r2 0 0 false with
+                        | Some (fp, nf, r3) => Some (fp, nf, r3)
+                        | None => None
+                        end
+                    | _ => Some (0, 0, r1)
+                    end in
+        match frac with
+        | None => Raise ValueError
+        | Some (fp, nf, r3) =>
+            if (ni =? 0) && (nf =? 0) then Raise ValueError else
+            let mant := (inject_Z ip + inject_Z fp * pow10 (- nf))%Q in
+            let fin (e : Z) :=
+              if 300 <? Z.abs e then Raise Unmodelled
+              else Ok (Qred ((if neg then - mant else mant) * pow10 e)) in
+            match r3 with
+            | [] => fin 0
+            | e :: r4 =>
+                if (e =? 101) || (e =? 69) then
+                  let '(eneg, r5) := match r4 with
+                                     | 45 :: r' => (true, r') | 43 :: r' => (false, r')
+                                     | _ => (false, r4) end in
+                  match split_digits r5 0 0 false with
+                  | Some (ev, ne, []) =>
+                      if ne =? 0 then Raise ValueError else fin (if eneg then - ev else ev)
+                  | _ => Raise ValueError
+                  end
+                else Raise ValueError
+            end
+        end
+    end
+  | [] => Raise ValueError
+  end.
+Definition py_float (v : pyval) : res pyval :=
+  match v with
+  | VBool b => Ok (VFloat (if b then 1 else 0))
+  | VInt z => Ok (VFloat (inject_Z z))
+  | VFloat q => Ok (VFloat q)
+  | VStr s => q <- parse_float s ;; Ok (VFloat q)
+  | _ => Raise TypeError
+  end.
+
 Definition py_bool (v : pyval) : res pyval := Ok (VBool (py_truthy v)).
 
 Definition prefixed (neg : bool) (p : Z) (body : str) : str :=
@@ -660,16 +734,31 @@ Definition py_hex (v : pyval) : res pyval :=
   | Some z => Ok (VStr (prefixed (z <? 0) 120 (digits 16 (Z.abs z))))
   | None => Raise TypeError end.
 
-(* str.upper / str.lower: ASCII exactly; other code points Unmodelled *)
+(* str.upper / str.lower: ASCII and Latin-1 letters exactly; CJK ideographs,
+   kana-free symbol/emoji planes are caseless; anything else is Unmodelled *)
 Definition ascii_upper (c : Z) : Z := if (97 <=? c) && (c <=? 122) then c - 32 else c.
 Definition ascii_lower (c : Z) : Z := if (65 <=? c) && (c <=? 90) then c + 32 else c.
+Definition case_known (c : Z) : bool :=
+  (c <? 128)
+  || ((160 <=? c) && (c <=? 254) && negb (c =? 181) && negb (c =? 223) && negb (c =? 170) && negb (c =? 186))
+  || ((19968 <=? c) && (c <=? 40959))          (* CJK unified ideographs *)
+  || ((127744 <=? c) && (c <=? 129791)).       (* pictographs / emoji *)
+Definition uni_upper (c : Z) : Z :=
+  if (224 <=? c) && (c <=? 254) && negb (c =? 247) then c - 32 else ascii_upper c.
+Definition uni_lower (c : Z) : Z :=
+  if (192 <=? c) && (c <=? 222) && negb (c =? 215) then c + 32 else ascii_lower c.
+Definition case_ok (s : str) : bool := forallb case_known s.
 Definition str_upper (v : pyval) : res pyval :=
   match v with
-  | VStr s => if non_ascii s then Raise Unmodelled else Ok (VStr (map ascii_upper s))
+  | VStr s => if non_ascii s
+              then (if case_ok s then Ok (VStr (map uni_upper s)) else Raise Unmodelled)
+              else Ok (VStr (map ascii_upper s))
   | _ => Raise AttributeError end.
 Definition str_lower (v : pyval) : res pyval :=
   match v with
-  | VStr s => if non_ascii s then Raise Unmodelled else Ok (VStr (map ascii_lower s))
+  | VStr s => if non_ascii s
+              then (if case_ok s then Ok (VStr (map uni_lower s)) else Raise Unmodelled)
+              else Ok (VStr (map ascii_lower s))
   | _ => Raise AttributeError end.
 Definition str_zfill (v w : pyval) : res pyval :=
   match v, as_index w with
@@ -756,3 +845,7 @@ Fixpoint flatten (v : pyval) : list pyval :=
   end.
 Definition py_flatten (v : pyval) : res pyval :=
   match v with VDict _ => Raise Unmodelled | _ => Ok (VList (flatten v)) end.
+
+(* fuel handed to translated self-recursive functions whose recursion depth is
+   the nesting depth of their argument *)
+Definition py_fuel : nat := 64.
